@@ -349,6 +349,9 @@ class Ctx:
             # std::complex(x, 0) / std::complex(x) built from a real value denote x (value-level identity used by guards and formulas)
             if r[1] == "std::complex" and ((len(args) == 2 and args[1] == ("lit", 0)) or (len(args) == 1 and "complex" not in (self.fn.nodes[n["args"][0]].get("t") or ""))):
                 r = args[0]
+            # iterator -> const_iterator conversions denote the same position
+            if len(args) == 1 and r[1] in ITERATOR_CONVERSIONS and "iterator" in (self.fn.nodes[n["args"][0]].get("t") or ""):
+                r = args[0]
         elif k == "bin":
             r = ("op", n["op"], K(n["l"]), K(n["r"]))
         elif k == "un":
@@ -475,6 +478,10 @@ def _this_fields(key, acc=None):
             if isinstance(x, tuple):
                 _this_fields(x, acc)
     return acc
+
+
+ITERATOR_CONVERSIONS = ("std::_Rb_tree_const_iterator", "std::_List_const_iterator", "__gnu_cxx::__normal_iterator", "std::_Bit_const_iterator",
+                        "std::_Deque_iterator", "std::__detail::_Node_const_iterator")
 
 
 def guard_facts(fn, ctx, kill_on_mutation=True, effects=None):
